@@ -42,9 +42,9 @@ let run_case cid (t : toks) =
     if par then begin
       Printf.printf "%s HS %s\n" cid (qs_str (q_par_cg_reported sizes b s.cg_hist)) end;
     Printf.printf "%s X %s\n" cid (qs_str s.cg_x)
-  | "bi_seq" | "bi_par" ->
+  | "bi_seq" | "bi_par" | "bi_par_si" | "bi_par_sn" | "bi_par_sisn" ->
     let (n, a, b, x0, tol, maxit, p, sizes) = read_system t in
-    let par = (op = "bi_par") in
+    let par = (op <> "bi_seq") in
     let ops = if par then q_dist_ops sizes else q_seq_ops in
     let mi = if maxit <= 0 then (if par then default_iters_13 (nat_of_int n) else default_iters_seq_bicgstab (nat_of_int n))
              else nat_of_int maxit in
